@@ -2,6 +2,7 @@ package main
 
 import (
 	"bufio"
+	"bytes"
 	"fmt"
 	"os"
 	"path/filepath"
@@ -99,6 +100,12 @@ func famRefs(w *bufio.Writer, seed uint64, n int) error {
 		moss.VerifOnRef = rr.hook
 		cfg := Config{LL: "store", MMPn: 8, MMPd: 10, MaxPre: 4, LevelMaxSegs: 1 + r.intn(2), LevelMult: 3, PctN: 99, PctD: 100}
 		cfg.CachePersisted = r.chance(1, 3)
+		// a third of the cases are shaped for leveled (partial) compaction: threshold 1.0, a big
+		// first round, small ones afterwards
+		leveled := r.chance(1, 3)
+		if leveled {
+			cfg.PctN, cfg.PctD, cfg.LevelMult = 1, 1, 2+r.intn(2)
+		}
 		children := r.chance(1, 2) && os.Getenv("VERIF_NOCHILD") == ""
 		g := &gen{r: r, o: genOpts{mergeW: 10}, universe: baseUniverse}
 		if children {
@@ -159,6 +166,7 @@ func famRefs(w *bufio.Writer, seed uint64, n int) error {
 		steps := 8 + r.intn(12)
 		emptyFooters := 0
 		witnessRounds := 0
+		bigDone := false
 		lastFile, lastCompactions := "", uint64(0)
 		var labels []sx
 		collOpen, storeOpen := true, true
@@ -190,9 +198,19 @@ func famRefs(w *bufio.Writer, seed uint64, n int) error {
 						b.kids = []kid{{name: childNames[0], b: &tbatch{ops: []bop{{'s', []byte("k0"), g.value()}}}}}
 					}
 				}
+				if leveled && witnessRounds == 0 && i != 0 && bigDone == false {
+					b.ops = append(b.ops, bop{'s', []byte("k9"), bytes.Repeat([]byte("B"), 2000+r.intn(1500))})
+					bigDone = true
+				}
 				if err := (&H{coll: c}).execBatch(b); err != nil {
 					note("ExecuteBatch: %v", err)
 					continue
+				}
+				if r.chance(1, 5) && i != 0 {
+					// do not wait: a later step (close of the collection, of the store) may then
+					// arrive while the persistence round is in flight
+					labels = append(labels, L("round-nowait"))
+					break
 				}
 				waitPersisted(c)
 				labels = append(labels, L("round"))
